@@ -19,7 +19,7 @@ Obj(buf, ro, ri, tx, an, src, how) == [buf |-> buf, ro |-> ro, ri |-> ri, tx |->
 Fields == {"ro", "ri", "tx", "an"}
 
 SharesBuffer == {"slice_events", "slice_channels", "view"}         \* basic indexing and view()
-NewBuffer == {"mask", "copy", "copycopy", "deepcopy", "pickle", "to_rfi", "to_mef", "start_end", "high_low", "astype"}
+NewBuffer == {"mask", "pick_channels", "copy", "copycopy", "deepcopy", "pickle", "to_rfi", "to_mef", "start_end", "high_low", "astype"}
 DupOps == {"copy", "copycopy", "deepcopy", "view", "pickle"}
 DeriveOps == SharesBuffer \cup NewBuffer
 (* to_rfi / to_mef / astype produce new VALUES (content token changes); all others keep them *)
